@@ -257,6 +257,38 @@ class TaggedEnv:
                 yield SimulatedInteraction(ctx, acts, rwds)
 
 
+class CachedEnv:
+    """An environment whose data comes through CobaContext.cacher.get_set (what OpenmlSource does): in a multi-process
+    experiment several workers contend for the same cache entry through the ConcurrentCacher that CobaMultiprocessor installs."""
+
+    def __init__(self, tag, key, n, n_actions=2):
+        self.tag, self.key, self.n, self.n_actions = tag, key, n, n_actions
+
+    @property
+    def params(self):
+        return {"env_type": "Cached", "tag": self.tag, "key": self.key, "n": self.n}
+
+    def read(self):
+        from coba.context import CobaContext
+        from coba.primitives import SimulatedInteraction
+        key, n = self.key, self.n
+
+        def getter():
+            s = cur_sim()
+            _record("cache.getter", key, s.current.pid if s is not None and s.current is not None else 0)
+            for i in range(n):
+                _yield("cache.getter.line")
+                yield f"{key}:{i}"
+
+        with CobaContext.cacher.get_set(key, getter) as lines:
+            data = [l.strip() for l in lines]
+        if data != [f"{key}:{i}" for i in range(n)]:
+            raise AssertionError(f"cache entry {key!r} is not complete: {data!r}")
+        for i in range(n):
+            acts = list(range(self.n_actions))
+            yield SimulatedInteraction((self.tag, i % 3), acts, [((i + a) % 5) / 5 for a in acts])
+
+
 # ----------------------------------------------------------------------------- evaluators
 class RowsEvaluator:
     """Yields prepared rows (C07) - ignores the learner, reads the environment only to count."""
